@@ -5,6 +5,11 @@ use std::io::{self, BufRead, Write};
 use std::panic;
 
 mod util;
+mod alloc;
+mod ops_hostile;
+
+#[global_allocator]
+static GLOBAL: alloc::Counting = alloc::Counting;
 mod ops_dos;
 mod ops_path;
 mod ops_text;
@@ -24,6 +29,9 @@ fn dispatch(op: &str, args: &[Arg]) -> String {
         return r;
     }
     if let Some(r) = ops_reader::dispatch(op, args) {
+        return r;
+    }
+    if let Some(r) = ops_hostile::dispatch(op, args) {
         return r;
     }
     "BADOP".to_string()
